@@ -337,6 +337,28 @@ theorem version_offsets_are_patch_file_places (u : Sec.Uni) (content : Sec.Bytes
         (Sec.size (a.filterMap (Sec.sideLine m)) + k) = Sec.position content (l'.off + k) :=
   Sec.version_byte_reported_where_it_stands u content c hc m a b l l' hbody hl k hk
 
+/-- **Every elision is recorded at the three dots it was written with.** For any patch file, any change sectioning finds
+in it and either version of the change's body: take the augmentations the finder produced for that version (in order,
+inside it, elisions three bytes long - `AugsOK`) and let the `i`-th be an elision over bytes that are indeed `...`. Then the
+node `rewrite` and the parser put in its place has, mapped back by `posAdjuster` and reported through the version's line
+entries, the line and column of an offset of the patch file where the file holds `...`. (`splitPatch`, the line entries,
+`rewrite`, `posAdjuster` and `token.File.Position` are the model's; that the parser places the node at the first byte of
+the replacing name is observed through the `split` stream.) -/
+theorem every_elision_is_recorded_at_its_three_dots (u : Sec.Uni) (content : Sec.Bytes) (c : Sec.Change)
+    (hc : c ∈ (Sec.split u content).1) (m : Bool) (augs : List Fnd.Aug)
+    (hok : Fnd.AugsOK (Sec.build (c.patch.filterMap (Sec.sideLine m))).contents 0 (Fnd.sortByStart augs))
+    (i s e : Nat) (n : Bool) (h : (Fnd.sortByStart augs)[i]? = some (.dots s e n))
+    (h0 : (Sec.build (c.patch.filterMap (Sec.sideLine m))).contents[s]? = some 46)
+    (h1 : (Sec.build (c.patch.filterMap (Sec.sideLine m))).contents[s + 1]? = some 46)
+    (h2 : (Sec.build (c.patch.filterMap (Sec.sideLine m))).contents[s + 2]? = some 46) :
+    ∃ s' e' p, (Fnd.rewrite (Sec.build (c.patch.filterMap (Sec.sideLine m))).contents augs).2.1[i]? = some (.dots s' e' n) ∧
+      (Sec.build (c.patch.filterMap (Sec.sideLine m))).positionIn content
+          (Fnd.adjust (Fnd.rewrite (Sec.build (c.patch.filterMap (Sec.sideLine m))).contents augs).2.2 s') = Sec.position content p ∧
+      content[p]? = some 46 ∧ content[p + 1]? = some 46 ∧ content[p + 2]? = some 46 := by
+  obtain ⟨s', e', hout, hadj⟩ := Fnd.rewrite_elision_maps_back _ augs hok i s e n h
+  obtain ⟨p, hp, hd⟩ := Sec.dots_of_a_version_are_dots_of_the_file u content c hc m s h0 h1 h2
+  exact ⟨s', e', p, hout, by rw [hadj]; exact hp, hd⟩
+
 /-- non-vacuity: the body `-foo(...)`, ` ...`, `+bar(...)`: the context line is line 2 of the patch in both versions -/
 example :
     let content : Sec.Bytes := "-foo(...)\n ...\n+bar(...)\n".toUTF8.toList
